@@ -367,8 +367,8 @@ fn c20_synthetic(c: &mut Case) -> Result<(), String> {
 pub const RULE_C20: &str = "values group: serde_json round trip of every k-mer type (19), all 256 Exts, Dir, DnaString (block-boundary lengths), Lmer1-3, PackedDnaStringSet, compared with == and by querying; graphs group: graph from a hostile read set (hairpins with odd K give right/left-side self links, tandem repeats give circular ones; empty, single-node and link-free graphs occur) through write_gfa / to_gfa / to_gfa_with_tags (parsed: one S line per node with its sequence and tags; every L line an adjacency with K-1 overlap under its orientations; every adjacency of edges() listed exactly once, palindromic single-k-mer nodes excepted) and to_json_rest with rest None / object / non-object (parsed with serde_json; nodes, payloads, sequences, links == right-going edges), plus serde_json round trip of DebruijnGraph and BaseGraph with find_link/edge queries compared; synthetic group: hand-built graphs with arbitrary extension bits (dangling), nodes >= 256 bases; distinct = hash(read set); non-trivial = graph has at least one adjacency";
 
 pub fn run_c20(ctx: &Ctx) {
-    ctx.run_group("values", ctx.n(20_000, 1_000_000), false, |c| rt_values(c));
-    let n = ctx.n(4000, 300_000);
+    ctx.run_group("values", ctx.n(100_000, 5_000_000), false, |c| rt_values(c));
+    let n = ctx.n(40_000, 2_000_000);
     ctx.run_group("graphs", n, false, |c| {
         let mut gc = gen_gcase(c);
         // odd K weighted up: hairpin self-links need odd K
@@ -385,7 +385,7 @@ pub fn run_c20(ctx: &Ctx) {
         }
         with_graph_k!(gc.kidx, K => c20_case::<K>(c, &gc))
     });
-    ctx.run_group("synthetic", ctx.n(3000, 200_000), false, |c| c20_synthetic(c));
+    ctx.run_group("synthetic", ctx.n(30_000, 1_500_000), false, |c| c20_synthetic(c));
     if !ctx.is_miri() {
         ctx.require("right_hairpin_self_links", 20);
         ctx.require("left_hairpin_self_links", 20);
